@@ -32,6 +32,8 @@ pub enum Profile {
     E { inner_max: usize, rich: bool },
     /// thread-local
     F,
+    /// small batch alphabet for schedule exploration
+    EB,
     /// names needing sanitising / unnamed (C20)
     N,
     /// ill-formed calls at every position (C18)
@@ -146,6 +148,7 @@ impl Profile {
             Profile::D { access } => format!("D(barriers; {} access sets)", access.len()),
             Profile::E { inner_max, rich } => format!("E(batches; inner plans of <= {} ops, rich {})", inner_max, rich),
             Profile::F => "F(thread-local)".to_string(),
+            Profile::EB => "EB(small batch alphabet)".to_string(),
             Profile::N => "N(names)".to_string(),
             Profile::Ill => "Ill(ill-formed calls)".to_string(),
         }
@@ -202,6 +205,30 @@ impl Profile {
                     for inner in inner_plans(*inner_max, *rich) {
                         out.push((
                             Op::Batch(BatchSpec { name: name.clone(), deps: vec![], ctrl, times: 1 + (i as u8 % 2), multi: false, fetch_data: false, inner }),
+                            false,
+                        ));
+                    }
+                }
+            }
+            Profile::EB => {
+                for (r, w) in [(vec![0u8], vec![]), (vec![], vec![0u8]), (vec![], vec![1u8])] {
+                    out.push((s(name.clone(), &r, &w, 3, vec![]), false));
+                }
+                let sy = |n: &str, r: &[u8], w: &[u8]| s(n.to_string(), r, w, 3, vec![]);
+                let inners: Vec<Vec<Op>> = vec![
+                    vec![sy("i0", &[0], &[])],
+                    vec![sy("i0", &[], &[0])],
+                    vec![sy("i0", &[], &[1])],
+                    vec![sy("i0", &[], &[0]), sy("i1", &[], &[1])],
+                    vec![sy("i0", &[0], &[]), sy("i1", &[], &[0])],
+                    vec![Op::Batch(BatchSpec { name: "n".into(), deps: vec![], ctrl: CtrlData::Unit, times: 1, multi: false, fetch_data: false, inner: vec![sy("x", &[], &[0])] })],
+                    vec![Op::Tl(SysSpec { name: String::new(), reads: vec![], writes: vec![1], time: 3, deps: vec![] })],
+                ];
+                for (ci, ctrl) in [CtrlData::Unit, CtrlData::ReadA, CtrlData::WriteC].into_iter().enumerate() {
+                    for (k, inner) in inners.iter().enumerate() {
+                        let times = 1 + ((k + ci) % 2) as u8;
+                        out.push((
+                            Op::Batch(BatchSpec { name: name.clone(), deps: vec![], ctrl, times, multi: (k + ci) % 5 == 4, fetch_data: ctrl != CtrlData::Unit, inner: inner.clone() }),
                             false,
                         ));
                     }
